@@ -529,17 +529,28 @@ def _sigs(nargs):
 
 
 def _match(chars, start, open_, close_):
-    """reference matcher for a bracketed group starting at chars[start] == open_: returns (content, index after close) or None"""
+    """reference matcher for a bracketed group starting at chars[start] == open_: returns (content, index after close) or None;
+    for [ ] ( ) < > delimiters a brace group inside the argument protects whatever it contains"""
     level = 0
+    brace = 0
     k = start
     content = []
+    braces_protect = not eq(open_, '{')
     while k < len(chars):
         c = chars[k]
-        if eq(c, open_):
+        if braces_protect and eq(c, '{'):
+            brace += 1
+            content.append(c)
+        elif braces_protect and eq(c, '}'):
+            brace -= 1
+            if brace < 0:
+                return None
+            content.append(c)
+        elif brace == 0 and eq(c, open_):
             level += 1
             if level > 1:
                 content.append(c)
-        elif eq(c, close_):
+        elif brace == 0 and eq(c, close_):
             level -= 1
             if level == 0:
                 return content, k + 1
@@ -796,7 +807,7 @@ def h_direct(e, typ, follow):
     e.check(_same_tokens(rest, _tokens_of(['Z', '|'])), 'what follows the invocation is affected', 'invocation-consumed' + sfx)
 
 
-def h_nest(e, kind, n):
+def h_nest(e, kind, n, braces=False):
     """one bracketed argument whose n content characters range over {open, close, a}: every nesting pattern of that length"""
     doc = TeXDocument()
     op, cl = ('{', '}') if kind == 'm' else (kind[0], kind[2])
@@ -806,7 +817,7 @@ def h_nest(e, kind, n):
     content = []
     for j in range(n):
         c = e.char('v%d' % j, 40, 125)
-        e.assume(e.one_of(c, 'a' + op + cl))
+        e.assume(e.one_of(c, 'a' + op + cl + ('{}' if kind != 'm' and braces else '')))
         content.append(c)
     chars = list('\\mac ') + [op] + content + [cl] + list('Z|')
     tex = TeX(doc)
@@ -1010,6 +1021,8 @@ def jobs(tier, seed):
             J.append(dict(harness='h_direct', params=dict(typ=typ, follow=f), label='direct type %s %r' % (typ, f), no_twin=True))
     for kind in ('[o]', 'm', '(o)'):
         J.append(dict(harness='h_nest', params=dict(kind=kind, n=5 if q else 6), label='nesting %s' % kind, split=4, no_twin=True))
+    for kind in ('[o]', '<o>'):
+        J.append(dict(harness='h_nest', params=dict(kind=kind, n=4 if q else 5, braces=True), label='nesting %s with brace groups' % kind, split=4, no_twin=True))
     for typ in ('dict', 'list'):
         J.append(dict(harness='h_cast', params=dict(typ=typ, n=5 if q else 6), label='direct cast %s' % typ, split=4, no_twin=True))
     return J
